@@ -44,6 +44,10 @@ type VerifSimClient struct {
 	// the caller, as in the real pipe where the reader thread wakes the caller and may already handle the push
 	// frames that follow the reply before the caller runs again.
 	ReplyPoint bool
+	// RetryWhileLost (opt-in, sim flavour): while the connection is lost, a retryable command waits until the connection
+	// is re-established (or its context ends) instead of failing at once — what the real client does with its default
+	// retry policy (unlimited attempts with back-off while the context is alive).
+	RetryWhileLost bool
 }
 
 type vsub struct {
@@ -264,6 +268,12 @@ func (c *VerifSimClient) Do(ctx context.Context, cmd Completed) (resp RedisResul
 	c.lag()
 	if err := ctx.Err(); err != nil {
 		return NewErrorResult(err)
+	}
+	if c.Lost && c.RetryWhileLost && cmd.IsRetryable() && vsched.Active() {
+		vsched.Point("simclient.retry-wait", func() bool { return !c.Lost || c.closed || ctx.Err() != nil })
+		if err := ctx.Err(); err != nil {
+			return NewErrorResult(err)
+		}
 	}
 	argv := append([]string{}, cmd.Commands()...)
 	if cmd.IsBlock() && vsched.Active() {
